@@ -587,7 +587,7 @@ class SI:
 
     def _bin(self, o, f):
         try:
-            return SI(f(self.e, zi(o)))
+            return type(self)(f(self.e, zi(o)))
         except TypeError:
             return NotImplemented
 
@@ -597,21 +597,21 @@ class SI:
     def __rsub__(self, o): return self._bin(o, lambda a, b: b - a)
     def __mul__(self, o): return self._bin(o, lambda a, b: a * b)
     __rmul__ = __mul__
-    def __neg__(self): return SI(-self.e)
+    def __neg__(self): return type(self)(-self.e)
     def __pos__(self): return self
-    def __abs__(self): return SI(z3.If(self.e >= 0, self.e, -self.e))
+    def __abs__(self): return type(self)(z3.If(self.e >= 0, self.e, -self.e))
 
     def __mod__(self, o):
         m = zi(o)
         if not z3.is_int_value(m) or m.as_long() <= 0:
             raise Inconclusive('symbolic modulo with non-constant or non-positive modulus')
-        return SI(self.e % m)      # SMT-LIB mod with positive divisor == Python %
+        return type(self)(self.e % m)      # SMT-LIB mod with positive divisor == Python %
 
     def __floordiv__(self, o):
         m = zi(o)
         if not z3.is_int_value(m) or m.as_long() <= 0:
             raise Inconclusive('symbolic floor-division with non-constant or non-positive divisor')
-        return SI(self.e / m)      # SMT-LIB div with positive divisor == floor
+        return type(self)(self.e / m)      # SMT-LIB div with positive divisor == floor
 
     def _cmp(self, o, op):
         try:
@@ -637,7 +637,7 @@ class SI:
             return e.as_long()
         while True:
             eng = ENG
-            key = tuple(eng.decisions[:eng.pos])
+            key = (tuple(eng.decisions[:eng.pos]), e.sexpr())
             if key in eng.persist['vals']:      # same candidate as on the earlier run through this point
                 if eng.branch(e == eng.persist['vals'][key]):
                     return eng.persist['vals'][key]
@@ -661,6 +661,13 @@ class SI:
     def conjugate(self): return self
     def copy(self): return self
     def __repr__(self): return f'SI({self.e})'
+
+
+class SIK(SI):
+    """symbolic integer usable as (part of) a dict key: hashing concretises it (forks over its feasible values)."""
+    __slots__ = ()
+
+    def __hash__(self): return hash(self.concretize())
 
 
 # ------------------------------------------------------------------------------------------------
